@@ -210,17 +210,18 @@ class Validator:
         See https://github.com/Julian/jsonschema/issues/119
         """
 
-        if not path:
-            # error applies to the root type
-            d = rootdict
-            key = d["__type__"]
-        elif isinstance(path[-1], int):
-            # the error is on an object in a list
-            d = dictutils.findkey(rootdict, *path)
+        node = dictutils.findkey(rootdict, *path)
+        object_error = isinstance(node, dict) and "__type__" in node
+
+        if object_error:
+            # error applies to an object (the root, an object in a list, or a nested object)
+            d = node
             key = d["__type__"]
         else:
-            key = path[-1]
-            d = dictutils.findkey(rootdict, *path[:-1])
+            # error applies to the value of a keyword (possibly to an item of a list value)
+            key_idx = max(i for i, p in enumerate(path) if not isinstance(p, int))
+            key = path[key_idx]
+            d = dictutils.findkey(rootdict, *path[:key_idx])
 
         error_message = f"ERROR: Invalid value in {key.upper()}"
 
@@ -238,11 +239,15 @@ class Validator:
         # include position details
 
         if "__position__" in d:
-            if not path or key not in d["__position__"]:
-                # position for the root object is stored in the root of the dict
+            if object_error or key not in d["__position__"]:
+                # position of an object is stored in the root of its position dict
                 pd = d["__position__"]
             else:
                 pd = d["__position__"][key]
+                if isinstance(pd, list):
+                    # repeated keywords (e.g. PROCESSING) have one position per occurrence
+                    idx = path[key_idx + 1] if len(path) > key_idx + 1 else 0
+                    pd = pd[idx] if isinstance(idx, int) and idx < len(pd) else pd[0]
 
             error_dict["line"] = pd.get("line")
             error_dict["column"] = pd.get("column")
